@@ -20,6 +20,16 @@ for d in sorted(glob.glob(os.path.join(VERIF, "seeded", "*"))):
     m = json.load(open(os.path.join(d, "meta.json")))
     name = os.path.basename(d)
     taken.setdefault(m["breaks_property"], []).append(f"- {name[4:].replace('-', ' ')}: {m.get('needs_to_manifest', '')}")
+# examined and not wanted (delivered repeatedly; equivalent in effect under real transports, or plain duplicates)
+for k, lines in {
+    "C08": ["- failed keepalive ping write swallowed in _async_send_keep_alive (with or without timers re-armed behind it): examined, not wanted", "- disconnect() returning early when _expected_disconnect is already set: taken (C05)"],
+    "C10": ["- failed keepalive ping write swallowed in _async_send_keep_alive: examined, not wanted"],
+    "C12": ["- dispatch over the live handler set when there is a single handler (no copy): taken", "- _remove_message_callback deleting the whole handler set / the last handler: taken"],
+    "C16": ["- dispatch over the live handler set when there is a single handler (no copy): taken", "- _remove_message_callback deleting the whole handler set / the last handler: taken"],
+    "C17": ["- dispatch over the live handler set when there is a single handler (no copy): taken", "- _remove_message_callback deleting the whole handler set / the last handler: taken"],
+    "C06": ["- Noise server hello parsed with split() so that the name check is skipped when a MAC follows the name: taken (C04)"],
+}.items():
+    taken.setdefault(k, []).extend(lines)
 head = subprocess.run("git -C /repo rev-parse HEAD", shell=True, capture_output=True, text=True).stdout.strip()
 for i in ids:
     wt = f"/tmp/{prefix}_{i}"
